@@ -20,6 +20,21 @@ def enc(l):
 ERRC = {'AnalyticalFeatureError': 'AFError', 'KeyError': 'KeyError', 'TypeError': 'TypeError', 'IndexError': 'IndexError', 'ZeroDivisionError': 'ZeroDiv', 'ValueError': 'ValueError'}
 
 
+APPLY = ['SHIFT_RIGHT', 'SHIFT_RIGHT', 'SHIFT_LEFT', 'SHIFT_CIRCULAR_RIGHT', 'SHIFT_CIRCULAR_LEFT', 'RECTIFIER', ['SHIFT', 2], ['SHIFT', 1], ['SHIFT_REV', 1]]
+
+
+def applied(opn, col):
+    """the documented output of an operator object on a column (None = NaN): y(t) = x(t - k), NaN outside the track; circular variants wrap; RECTIFIER is |x|"""
+    n = len(col)
+    if opn == 'RECTIFIER':
+        return [None if v is None else abs(v) for v in col]
+    if opn in ('SHIFT_CIRCULAR_RIGHT', 'SHIFT_CIRCULAR_LEFT'):
+        d = 1 if opn == 'SHIFT_CIRCULAR_RIGHT' else -1
+        return [col[(i - d) % n] for i in range(n)]
+    d = {'SHIFT_RIGHT': 1, 'SHIFT_LEFT': -1}.get(opn) if isinstance(opn, str) else (opn[1] if opn[0] == 'SHIFT' else -opn[1])
+    return [col[i - d] if 0 <= i - d < n else None for i in range(n)]
+
+
 def gen_history(rng, depth, with_expr=True):
     n = rng.randint(1, 4)
     ops = []
@@ -28,8 +43,18 @@ def gen_history(rng, depth, with_expr=True):
     ren = rng.choice([{}, {}, {}, {'a': 'xy', 'b': 'zt', 'c': 'xyz', 's': 'yz'}, {'a': 'tx', 'b': 'id', 'c': 'x2', 's': 'yzt'}])
     R = lambda nm: ren.get(nm, nm)
     for _ in range(depth):
-        k = rng.choice(['C', 'C', 'R', 'D', 'L', 'U', 'I', 'I', 'O', 'F', 'E', 'E'] if with_expr else ['C', 'C', 'R', 'D', 'L', 'U', 'I', 'I', 'O', 'F'])
+        k = rng.choice(['C', 'C', 'R', 'D', 'L', 'U', 'I', 'I', 'O', 'F', 'E', 'E', 'A'] if with_expr else ['C', 'C', 'R', 'D', 'L', 'U', 'I', 'I', 'O', 'F', 'A'])
         nm = R(rng.choice(NAMES))
+        if k == 'A':
+            # an operator OBJECT applied to a feature that an earlier call tried to create, in place (no output name, or the input's own name) or into another name
+            if not created:
+                k = 'C'
+            else:
+                src = rng.choice(created)
+                ops.append(['A', src, rng.choice(APPLY), rng.choice([None, None, src, R(rng.choice(['a', 'b', 'c', 's']))])])
+                if ops[-1][3]:
+                    created.append(ops[-1][3])
+                continue
         if k in ('C', 'L', 'U', 'I', 'F') and nm not in ('x', 'y', 'idx', 't', 'lbl'):
             created.append(nm)
         val = lambda: rng.choice([0, 1, 2, 3, -1, 0.5, 4])
@@ -143,6 +168,16 @@ def run_impl(case):
                 else:
                     h = n // 2
                     tr = (tr.extract(0, h - 1) + tr.extract(h, n - 1)) if 0 < h < n else tr.copy()         # (a sum of tracks that list different features lists none, by design: not used)
+            elif k == 'A':
+                from tracklib.core.operators import Operator
+                if not tr.hasAnalyticalFeature(nm):
+                    steps.append({'skipped': True, 'err': None})
+                    continue
+                opn = op[2]
+                args = [getattr(Operator, opn), nm] if isinstance(opn, str) else [getattr(Operator, opn[0]), nm, opn[1]]
+                if op[3]:
+                    args.append(op[3])
+                tr.operate(*args)
             elif k == 'F':
                 vals = list(op[2])
                 def f(track, i, vals=vals):
@@ -219,9 +254,19 @@ def coq_case(case, obs):
         return None
     steps = obs['steps']
     items = []
+    prev = None
     for op, st in zip(case['ops'], steps):
         if st.get('stop'):
             break
+        if st.get('skipped'):
+            continue               # the operator object was not applied: its input feature was not listed at that point
+        if op[0] == 'A':
+            # for the table model an operator application is "write this column under that name": the column is the documented output of the operator on the
+            # values READ under the input name just before the call
+            if prev is None or op[1] not in prev['names'] or st['err'] is not None:
+                return None        # the oracle reports it
+            op = ['F', op[3] or op[1], applied(op[2], prev['cols'][prev['names'].index(op[1])]), 'add']     # written over the listed name, or created with these values
+        prev = st if 'names' in st else prev
         if op[0] == 'P':
             if st['err'] is not None:
                 return None        # the oracle reports it
@@ -243,6 +288,8 @@ def oracle(case, obs):
     for idx, (op, st) in enumerate(zip(case['ops'], obs['steps'])):
         if st.get('stop'):
             return None
+        if st.get('skipped'):
+            continue
         k, nm = op[0], op[1]
         col = lambda init: [float(init[1])] * n if init[0] == 's' else ([TEXTS[init[1]]] * n if init[0] == 't' else [float(v) for v in init[1]])
         if k == 'C':
@@ -274,6 +321,16 @@ def oracle(case, obs):
         elif k == 'F':
             if nm not in virt:
                 spec[nm] = [nan if v is None else float(v) for v in op[2]]
+        elif k == 'A':
+            if st.get('skipped'):
+                continue
+            if st['err'] is not None:
+                return 'step %d: operator object %r on %r raised %s' % (idx, op[2], nm, st['err'])
+            if nm in spec and not any(isinstance(v, str) for v in spec[nm]):
+                out = applied(op[2], [None if v != v else v for v in spec[nm]])
+                spec[op[3] or nm] = [nan if v is None else v for v in out]
+            else:
+                return None          # a text feature: outside the oracle's domain from here on
         else:
             if st['err'] is not None:
                 return None
